@@ -4,7 +4,7 @@ import re
 
 from ..extract import AnalysisError
 from ..facts import walk, strip, callee, calls_to, access_path
-from ..symx import SymEval, Poly, Unsupported, app, var, num, single_atom, atom_fn, atom_args, contains_atom, vkey, cmp_atom
+from ..symx import SymEval, Poly, Unsupported, app, var, num, single_atom, atom_fn, atom_args, contains_atom, vkey, cmp_atom, unkey
 from ..trace import Tracer
 from ..panics import SiteTracer, reachable, mir_callees, mir_fn_refs
 
@@ -16,13 +16,22 @@ NONDET = re.compile(r"rand::(rng|thread_rng|random|random_range|random_bool).*|r
 RX = r"sparse::.*|mackay_neal::.*|peg::.*|util::.*|rand::.*|rand_chacha::.*|std::vec::Vec::<T, A>::(truncate|pop|sort_unstable_by|drain|clear|append)|rayon::.*"
 
 
+STEPS = "try_insert_column|backtrack|retry_girth|select_rows|run|new"
+
+
 def trace(F, fn, names, mode="int", expand_helpers=False):
     b = F.body(fn)
     rx = RX
-    if expand_helpers:
+    if expand_helpers == "steps":
+        # the named steps of the construction stay calls (each has its own rule); any other private method is a helper of the
+        # step being read and is expanded at its call site
+        rx = RX.replace("mackay_neal::.*", r"mackay_neal::(?!MacKayNeal::).*|mackay_neal::MacKayNeal::(%s)" % STEPS) \
+            .replace("peg::.*", r"peg::(?!Peg::).*|peg::Peg::(insert_edge|run|new)")
+    elif expand_helpers:
         # private methods of MacKayNeal called from this step (e.g. one per fill policy) are expanded at their call sites
         rx = RX.replace("mackay_neal::.*", r"mackay_neal::(?!MacKayNeal::).*")
     t = SiteTracer(F, contracts=rx, no_inline=rx + "|std::.*|core::.*", mode=mode)
+    t.track_fields = expand_helpers == "steps"      # the transformer readings see stores in program order
     env = {}
     for p, nm in zip(b.params, names):
         t.bind(p, var(nm), env)
@@ -155,15 +164,26 @@ def run(ck, F, tier):
         return out
     seen_cl = set()
 
+    def upstream_filters(d):
+        """(filter kind, upstream description, closure) of every filter / filter_map stage in an iterator description"""
+        out = []
+        if isinstance(d, tuple):
+            if d and d[0] in ("filter", "filter_map") and len(d) > 2 and isinstance(d[2], tuple) and d[2] and d[2][0] == "closure":
+                out.append((d[0], d[1], d[2]))
+            for x in d:
+                out += upstream_filters(x)
+        return out
+
     class T2(Tracer):
         def e_mcall(self_, n, env):
             v = Tracer.e_mcall(self_, n, env)
             if isinstance(v, tuple) and v and v[0] == "iterdesc":
-                for c in closures_of(v[1]):
+                for kind, up, c in upstream_filters(v[1]):
                     if id(c[1]) not in seen_cl:
                         seen_cl.add(id(c[1]))
                         try:
-                            preds.append((self_.apply(c, [var("r")]), c[1].get("sp")))
+                            # the predicate applied to the element the upstream stages produce for row r
+                            preds.append((kind, self_.apply(c, [self_.elem_value(up, "r")]), c[1].get("sp")))
                         except Unsupported:
                             pass
             return v
@@ -178,27 +198,32 @@ def run(ck, F, tier):
             lp = e.loops[-1]
             if lp[2] == num(0) and lp[3] == app(SM + "num_rows", var("self.h")) and not lp[4]:
                 from ..symx import replace_atom
-                own = [g for g, p in e.guards if p and contains_atom(vkey(g), lambda a_: a_ == ("v", lp[1]))]
+                own = [(g, p) for g, p in e.guards if contains_atom(vkey(g), lambda a_: a_ == ("v", lp[1]))]
                 if len(own) == 1:
-                    preds.append((replace_atom(own[0], single_atom(var(lp[1])), var("r")), e.site))
-    RW = app(SM + "row_weight", var("self.h"), var("r"))
-    WR = var("self.wr")
-    strict = []
-    for v, sp in preds:
-        a = single_atom(v) if isinstance(v, Poly) else None
-        # Random: the predicate itself; Uniform: if w < wr { Some((r, w)) } else { None }
-        c = None
-        if a and atom_fn(a) == "lt":
-            c = a
-        elif a and atom_fn(a) == "ite":
-            c = single_atom(atom_args(a)[0])
-        if c is not None and atom_fn(c) in ("lt", "le"):
-            x, y = atom_args(c)
-            strict.append((atom_fn(c), x == RW and y == WR, sp))
-    ck.inst("Q2", "select_rows:weight-filter", len(strict) == 2 and all(okp for _, okp, _ in strict), b.span,
-            "both fill policies keep row r only under a comparison of row_weight(h, r) with the configured wr (%d filter predicates read)" % len(strict))
-    ck.inst("Q2", "select_rows:strict-less-than", [o for o, _, _ in strict] == ["lt", "lt"], b.span,
-            "row weight comparisons against wr: %s (required `<` twice)" % [o for o, _, _ in strict])
+                    g_ = replace_atom(own[0][0], single_atom(var(lp[1])), var("r"))
+                    preds.append(("filter", g_ if own[0][1] else app("not", g_), e.site))
+    # each predicate is evaluated on a grid of (row weight, wr): row r is kept exactly when row_weight(h, r) < wr
+    from ..transformer import Grid
+    from ..symx import NotEvaluable
+    nread = 0
+    for i, (kind, v, sp) in enumerate(preds):
+        okp, bad = True, None
+        try:
+            for w, wr_ in ((w, x) for w in range(4) for x in range(4)):
+                seen_r = []
+                g = Grid({"r": 1, "self.wr": wr_}, {"row_weight": lambda h_, r_, w=w: (seen_r.append((h_, r_)), w)[1], "num_rows": lambda *a_: 3})
+                val = g.value(v)
+                kept = (isinstance(val, tuple) and val[0] == "Some") if kind == "filter_map" else bool(val)
+                if kept != (w < wr_) or any(x != ("<self.h>", 1) for x in seen_r):
+                    okp, bad = False, (w, wr_, kept)
+                    break
+            nread += 1
+        except (NotEvaluable, TypeError) as ex:
+            okp, bad = False, "not evaluable: %s" % ex
+        ck.inst("Q2", "select_rows:weight-filter#%d" % (i + 1), okp, sp or b.span,
+                "row r stays a candidate exactly when row_weight(h, r) < wr (strict)%s" % ("" if okp else " ; differs at (weight, wr, kept) = %r" % (bad,)))
+    ck.inst("Q2", "select_rows:both-policies-filter", len(preds) == 2 and nread == 2, b.span,
+            "both fill policies filter the candidate rows by weight (%d filter predicates read)" % len(preds))
     cm = by_name(calls, "choose_multiple")
     srs = by_name(calls, "sort_by_random_sel")
     ok = len(cm) == 1 and cm[0]["vals"][1:] == [var("self.rng"), var("self.wc")] and len(srs) == 1 and srs[0]["vals"][1] == var("self.wc") and srs[0]["vals"][3] == var("self.rng")
@@ -210,55 +235,87 @@ def run(ck, F, tier):
     okor = bool(by_name(calls, "ok_or")) or "NoAvailRows" in repr(ret)
     ck.inst("Q2", "select_rows:exactly-wc", ok and short and okor, b.span,
             "Random: choose_multiple(rng, wc) and Err(NoAvailRows) when fewer than wc were available; Uniform: sort_by_random_sel(wc, .., rng) or NoAvailRows")
-    b, t, ret, calls = trace(F, MN + "try_insert_column", ["self"])
-    ic = by_name(calls, "insert_col")
-    gi = by_name(calls, "girth_at_node_with_max")
-    cc = by_name(calls, "clear_col")
-    rets = [e for e in t.events if e.callee == "<return>"]
-    CC = var("self.current_col")
-    ok_ins = len(ic) == 1 and ic[0]["vals"][:2] == [var("self.h"), CC] and "select_rows(self)" in repr(ic[0]["vals"][2]) and not ic[0]["guards"]
-    ok_g = len(gi) == 1 and gi[0]["vals"][1] == ("ctor", "Col", [CC]) and gi[0]["vals"][2] == app("payload0", var("self.min_girth")) - num(1) \
-        and calls.index(gi[0]) > calls.index(ic[0])
-    ck.inst("Q2", "try_insert_column:insert", ok_ins, b.span, "the selected rows are inserted into column current_col")
-    ck.inst("Q2", "try_insert_column:girth-bound", ok_g, gi[0]["sp"] if gi else b.span,
-            "girth test after the insertion: girth_at_node_with_max(Col(current_col), %r) ; required bound g - 1" % (gi[0]["vals"][2] if gi else None,))
-    gerr = [e for e in rets if "GirthTooSmall" in repr(e.args[0])]
-    undo = len(cc) == 1 and len(gerr) == 1 and cc[0]["vals"] == [var("self.h"), CC] and repr(cc[0]["guards"]) == repr(gerr[0].guards) and \
-        any("is_some" in repr(g) and p for g, p in gerr[0].guards)
-    ck.inst("Q2", "try_insert_column:undo-on-reject", undo, cc[0]["sp"] if cc else b.span,
-            "on rejection (girth found <= g-1) clear_col(current_col) runs in the same branch before Err(GirthTooSmall)")
-    b, t, ret, calls = trace(F, MN + "backtrack", ["self"])
-    cc = by_name(calls, "clear_col")
-    asg = {repr(e.args[0]): e for e in t.events if e.callee == "<assign>"}
-    from ..symx import mk_minmax
-    A = CC - mk_minmax("min", CC, var("self.backtrack_cols"))
-    A2 = A
-    ok = len(cc) == 1 and cc[0]["loops"] and cc[0]["loops"][-1][0] == "range" and cc[0]["loops"][-1][2] in (A, A2) and cc[0]["loops"][-1][3] == CC \
-        and not cc[0]["loops"][-1][4] and cc[0]["vals"][1] == var(cc[0]["loops"][-1][1])
-    set_ok = "self.current_col" in asg and asg["self.current_col"].args[1] in (A, A2)
-    dec_ok = "self.backtrack_trials" in asg and asg["self.backtrack_trials"].node.get("op", "").startswith("Sub") and asg["self.backtrack_trials"].args[1] == num(1)
-    rets = [e for e in t.events if e.callee == "<return>"]
-    zero_ok = any("NoMoreBacktrack" in repr(e.args[0]) and e.guards == [(cmp_atom("eq", var("self.backtrack_trials"), num(0)), True)] for e in rets)
-    ck.inst("Q2", "backtrack", ok and set_ok and dec_ok and zero_ok, b.span,
-            "clears columns a..current_col with a = current_col - min(current_col, backtrack_cols) (%s), sets current_col = a (%s), trials -= 1 (%s), "
-            "Err(NoMoreBacktrack) at zero (%s)" % (ok, set_ok, dec_ok, zero_ok))
-    b, t, ret, calls = trace(F, MN + "retry_girth", ["self"])
-    asg = {repr(e.args[0]): e for e in t.events if e.callee == "<assign>"}
-    rets = [e for e in t.events if e.callee == "<return>"]
-    ok = "self.girth_trials" in asg and asg["self.girth_trials"].node.get("op", "").startswith("Sub") and asg["self.girth_trials"].args[1] == num(1) and \
-        any("NoMoreTrials" in repr(e.args[0]) and e.guards == [(cmp_atom("eq", var("self.girth_trials"), num(0)), True)] for e in rets)
-    ck.inst("Q2", "retry_girth", ok, b.span, "girth trials decrease by one per retry and Err(NoMoreTrials) at zero")
-    b, t, ret, calls = trace(F, MN + "run", ["self"])
-    wl = [s for s in calls if s["detail"].endswith("try_insert_column")]
-    adv = [e for e in t.events if e.callee == "<assign>" and repr(e.args[0]) == "self.current_col"]
-    loop_c = cmp_atom("lt", CC, app(SM + "num_cols", var("self.h")))
-    ok = len(wl) == 1 and wl[0]["guards"] == [(loop_c, True)] and len(adv) == 1 and adv[0].node.get("op", "").startswith("Add") and adv[0].args[1] == num(1) \
-        and any("'Ok'" in repr(g) and p for g, p in adv[0].guards) and ret == ("ctor", "Ok", [var("self.h")])
-    bt = by_name(calls, "backtrack")
-    rg = by_name(calls, "retry_girth")
-    route = len(bt) == 1 and any("NoAvailRows" in repr(g) and p for g, p in bt[0]["guards"]) and len(rg) == 1 and any("GirthTooSmall" in repr(g) and p for g, p in rg[0]["guards"])
-    ck.inst("Q2", "run-loop", ok and route, b.span,
-            "while current_col < num_cols: try_insert_column; Ok => current_col += 1; NoAvailRows => backtrack()?; GirthTooSmall => retry_girth()?; returns h after the loop [%s %s]" % (ok, route))
+    from ..transformer import StepReading, compare, Grid
+    from itertools import product
+    H = "<self.h>"
+    b, t, ret, calls = trace(F, MN + "try_insert_column", ["self"], expand_helpers="steps")
+    ROWS = ("elems", "ROWS")
+    pts = []
+    for cc, mg, sel, girth in product((0, 2), ("None", ("Some", 4), ("Some", 6)), (("Ok", "ROWS"), ("Err", "NoAvailRows")), ("None", ("Some", 3))):
+        pts.append(({"self.current_col": cc, "self.min_girth": mg, "$sel": sel, "$girth": girth},
+                    {"select_rows": lambda *a, sel=sel: sel, "girth_at_node_with_max": lambda *a, girth=girth: girth,
+                     "into_iter": lambda x: ("elems", x), "iter": lambda x: ("elems", x)}))
+
+    def tic_spec(v):
+        cc, mg, sel, girth = v["self.current_col"], v["self.min_girth"], v["$sel"], v["$girth"]
+        cs = [("select_rows", "<self>")]
+        if sel[0] == "Err":
+            return sel, {}, cs
+        cs.append(("insert_col", H, cc, ROWS))
+        if mg != "None":
+            cs.append(("girth_at_node_with_max", H, ("Col", cc), mg[1] - 1))
+            if girth != "None":
+                return ("Err", "GirthTooSmall"), {}, cs + [("clear_col", H, cc)]
+        return ("Ok", ()), {}, cs
+    compare(ck, "Q2", "try_insert_column", StepReading(t, ret, what="try_insert_column"), pts, tic_spec, b.span,
+            "rows = select_rows()? are inserted into column current_col; with min_girth = Some(g), a cycle of length <= g-1 through that column "
+            "(girth_at_node_with_max(Col(current_col), g-1) is Some) clears the column again and gives Err(GirthTooSmall); otherwise Ok")
+    b, t, ret, calls = trace(F, MN + "backtrack", ["self"], expand_helpers="steps")
+    pts = [({"self.backtrack_trials": T, "self.current_col": C, "self.backtrack_cols": B}, {}) for T, C, B in product(range(3), range(4), range(4))]
+
+    def backtrack_spec(v):
+        T, C, B = v["self.backtrack_trials"], v["self.current_col"], v["self.backtrack_cols"]
+        if T == 0:
+            return ("Err", "NoMoreBacktrack"), {"self.backtrack_trials": T, "self.current_col": C}, []
+        a = C - min(C, B)
+        return ("Ok", ()), {"self.backtrack_trials": T - 1, "self.current_col": a}, [("clear_col", H, c) for c in range(a, C)]
+    compare(ck, "Q2", "backtrack", StepReading(t, ret, what="backtrack"), pts, backtrack_spec, b.span,
+            "no trials left: Err(NoMoreBacktrack) and nothing changes; otherwise trials - 1, exactly the columns a..current_col cleared (in any order) and "
+            "current_col = a, with a = current_col - min(current_col, backtrack_cols)", unordered=True)
+    b, t, ret, calls = trace(F, MN + "retry_girth", ["self"], expand_helpers="steps")
+
+    def retry_spec(v):
+        G = v["self.girth_trials"]
+        return (("Err", "NoMoreTrials"), {"self.girth_trials": G}, []) if G == 0 else (("Ok", ()), {"self.girth_trials": G - 1}, [])
+    compare(ck, "Q2", "retry_girth", StepReading(t, ret, what="retry_girth"), [({"self.girth_trials": G}, {}) for G in range(4)], retry_spec, b.span,
+            "girth trials decrease by one per retry and Err(NoMoreTrials) at zero")
+    b, t, ret, calls = trace(F, MN + "run", ["self"], expand_helpers="steps")
+    # the loop: its condition and one iteration read as a transformer; after the loop the function returns Ok(h)
+    wl = [it for e in list(t.events) + [type("S", (), {"loops": s_["loops"]})() for s_ in t.sites] for it in e.loops[:1] if it and it[0] == "while"]
+    conds = {repr(l[1]) for l in wl}
+    okc = len(conds) == 1
+    if okc:
+        c = wl[0][1]
+        for cc, n in product(range(4), range(1, 4)):
+            g = Grid(dict({"self.current_col": cc}, **{"self.current_col@loop%d" % l_[2]: cc for l_ in wl if len(l_) == 3}), {"num_cols": lambda *a, n=n: n})
+            try:
+                okc = okc and bool(g.value(c)) == (cc < n)
+            except Exception:
+                okc = False
+    ck.inst("Q2", "run-loop:condition", okc and ret == ("ctor", "Ok", [var("self.h")]), b.span,
+            "the construction continues exactly while current_col < num_cols and then returns Ok(h) (%d loop conditions read)" % len(conds))
+    pts = []
+    E = lambda x: ("Err", x)
+    for cc, tic, bt, rg in product((0, 1), (("Ok", ()), E("NoAvailRows"), E("GirthTooSmall"), E("NoMoreTrials")), (("Ok", ()), E("NoMoreBacktrack")), (("Ok", ()), E("NoMoreTrials"))):
+        pts.append(({"self.current_col": cc, "$tic": tic, "$bt": bt, "$rg": rg},
+                    {"num_cols": lambda *a: 2, "try_insert_column": lambda *a, tic=tic: tic, "backtrack": lambda *a, bt=bt: bt, "retry_girth": lambda *a, rg=rg: rg}))
+
+    def iter_spec(v):
+        cc, tic, bt, rg = v["self.current_col"], v["$tic"], v["$bt"], v["$rg"]
+        cs = [("try_insert_column", "<self>")]
+        if tic[0] == "Ok":
+            return None, {"self.current_col": cc + 1}, cs
+        if tic[1] == "NoAvailRows":
+            return (None if bt[0] == "Ok" else bt), {"self.current_col": cc}, cs + [("backtrack", "<self>")]
+        if tic[1] == "GirthTooSmall":
+            return (None if rg[0] == "Ok" else rg), {"self.current_col": cc}, cs + [("retry_girth", "<self>")]
+        return tic, {"self.current_col": cc}, cs
+    rd = StepReading(t, None, strip_loop=lambda l: l[0] == "while", what="run (one iteration)", pure=("num_cols",))
+    ok_out = not [it for it in rd.outside if it["kind"] in ("call", "<assign>")]
+    compare(ck, "Q2", "run-loop", rd, pts, iter_spec, b.span,
+            "one iteration: try_insert_column once; Ok => current_col + 1; NoAvailRows => backtrack()?; GirthTooSmall => retry_girth()?; "
+            "any other error is returned; nothing else changes the state")
+    ck.inst("Q2", "run-loop:nothing-outside", ok_out, b.span, "no store or call of run() happens outside its loop")
     nb = F.body(MN + "new")
     tn = Tracer(F, "NONE")
     env = {}
@@ -319,7 +376,7 @@ def run(ck, F, tier):
         ck.inst("Q3", "run-uses-seed:" + ent.split("::")[0], v == app(ctor + "run", app(ctor + "new", var("self"), var("seed"))), eb.span, "Config::run(seed) = %r" % (v,))
 
     # ---- Q4 ---------------------------------------------------------------------------------------
-    b, t, ret, calls = trace(F, "peg::Peg::insert_edge", ["self", "col"])
+    b, t, ret, calls = trace(F, "peg::Peg::insert_edge", ["self", "col"], expand_helpers="steps")
     bf = by_name(calls, "bfs")
     ins = by_name(calls, "insert")
     srm = by_name(calls, "sort_by_random_min")
@@ -341,22 +398,22 @@ def run(ck, F, tier):
             else:
                 break
         return v, okor_
-    ok = len(bf) == 1 and bf[0]["vals"] == [var("self.h"), ("ctor", "Col", [var("col")])] and len(ins) == 1 and ins[0]["vals"][0] == var("self.h") and ins[0]["vals"][2] == var("col") \
-        and len(srm) == 1 and srm[0]["vals"][2] == var("self.rng")
-    err_ok = False
-    if ok:
-        SRM = app(srm[0]["detail"], *srm[0]["vals"])
-        srcv, okor_ = selection_source(ins[0]["vals"][1])
-        # no row selected -> Err(NoAvailRows): through ok_or(..)? or through the else branch of `let Some(..) = .. else`
-        rets_ = [e for e in t.events if e.callee == "<return>" and "NoAvailRows" in repr(e.args[0])]
-        else_ret = any(any(isinstance(g, Poly) and single_atom(g) is not None and atom_fn(single_atom(g)) == "matches" and
-                           isinstance(atom_args(single_atom(g))[0], Poly) and atom_fn(single_atom(atom_args(single_atom(g))[0]) or ()) == srm[0]["detail"] and
-                           "Some" in str(atom_args(single_atom(g))[1]) and not p for g, p in e.guards) for e in rets_)
-        err_ok = okor_ or else_ret
-        sa_ = single_atom(srcv) if isinstance(srcv, Poly) else None
-        same_call = sa_ is not None and atom_fn(sa_) == srm[0]["detail"] and list(atom_args(sa_)[1:]) == [vkey(x) if not isinstance(x, Poly) else x for x in srm[0]["vals"][1:]]
-        ok = (srcv == SRM or same_call) and err_ok
-    ck.inst("Q4", "peg:insert_edge-wiring", ok, b.span, "distances = bfs(Col(col)).row_nodes_distance; selected = row of candidates.sort_by_random_min(cmp, rng), Err(NoAvailRows) when there is none (%s); insert(selected, col)" % err_ok)
+    from ..transformer import ANY
+    pts = []
+    for col_, sel in product((0, 3), ("None", ("Some", (5, "D", "W")))):
+        pts.append(({"col": col_, "$sel": sel}, {"bfs": lambda *a_: "BFS", "sort_by_random_min": lambda *a_, sel=sel: sel, "insert": lambda *a_: ()}))
+
+    def edge_spec(v):
+        cs = [("bfs", "<self.h>", ("Col", v["col"])), ("sort_by_random_min", ANY, ANY, "<self.rng>")]
+        if v["$sel"] == "None":
+            return ("Err", "NoAvailRows"), {}, cs
+        return ("Ok", ()), {}, cs + [("insert", "<self.h>", v["$sel"][1][0], v["col"])]
+    compare(ck, "Q4", "peg:insert_edge-wiring", StepReading(t, ret, what="insert_edge", pure=("row_weight", "compare_some")), pts, edge_spec, b.span,
+            "one bfs from Col(col), one selection with the construction's rng; no candidate: Err(NoAvailRows) and no insertion; otherwise "
+            "insert(row of the selected candidate, col) and Ok")
+    # the candidates handed to the selection come from that bfs' row distances
+    ok = len(srm) == 1 and len(bf) == 1 and "row_nodes_distance" in repr(srm[0]["vals"][0])[:2000] and "SparseMatrix::bfs(self.h" in repr(srm[0]["vals"][0])[:2000]
+    ck.inst("Q4", "peg:insert_edge-candidates-from-bfs", ok, b.span, "the candidate list is built from bfs(Col(col)).row_nodes_distance")
     # candidate list: one (j, distance_j, row_weight(j)) per entry of the distance vector, in order (map+collect or push loop)
     cand_ok = False
     if len(srm) == 1 and len(rw) == 1:
@@ -366,9 +423,15 @@ def run(ck, F, tier):
         if ca and atom_fn(ca) == "std::iter::Iterator::collect" and isinstance(ca[2], tuple) and ca[2][0] == "iterdesc" and ca[2][1][0] == "map" \
                 and ca[2][1][1][0] == "enumerate" and "row_nodes_distance" in repr(ca[2][1][1][1]) and ca[2][1][1][1][0] == "elems":
             clo = ca[2][1][2]
-            node = F.closures.get(clo[1]) if isinstance(clo, tuple) and clo[0] == "closure" else None
-            if node is not None:
-                fv = Tracer(F, "NONE").apply(("closure", node, {"self#": var("self")}), [("tuple", [var("j"), var("d")])])
+            from ..idioms import as_closure
+            try:
+                clv = as_closure(F, t, clo)
+            except Unsupported:
+                clv = None
+            if clv is not None and isinstance(clv, tuple) and clv[0] == "closure":
+                envc = dict(clv[2])
+                envc.setdefault("self#", var("self"))
+                fv = Tracer(F, "NONE").apply(("closure", clv[1], envc), [("tuple", [var("j"), var("d")])])
                 cand_ok = fv == ("tuple", [var("j"), var("d"), RW_]) or (isinstance(fv, tuple) and fv[0] == "tuple" and fv[1][:2] == [var("j"), var("d")] and "row_weight" in repr(fv[1][2]))
         else:
             pushes = [x for x in t.sites if x["kind"] == "call" and x["detail"].endswith("::push")] or [e for e in t.events if e.callee.endswith("::push")]
@@ -412,45 +475,58 @@ def run(ck, F, tier):
     ch = by_name(calls, "choose")
     tr_ = by_name(calls, "truncate")
     pp = by_name(calls, "pop")
-    ok = len(ch) == 1 and ch[0]["vals"][1] == var("rng") and len(tr_) == 1 and len(pp) == 1 \
-        and "choose" in repr(tr_[0]["vals"][1]) and (tr_[0]["vals"][1] - num(1)).const_value() is None
-    # the population handed to choose(): the indices j with compare(x_j, min) == Equal (filter_map with a match, or filter + map)
+    UNWRAP = "std::option::Option::<T>::unwrap"
+    IDX = app(UNWRAP, app(ch[0]["detail"], *ch[0]["vals"])) if len(ch) == 1 else None
+    # the element handed back is the one at the chosen index: truncate(idx + 1) then pop, or into_iter().nth(idx), or (swap_)remove(idx)
+    at_idx = False
+    if IDX is not None:
+        ra = single_atom(ret) if isinstance(ret, Poly) else None
+        if isinstance(ret, tuple) and len(ret) == 3 and ret[:2] == ("ctor", "Some") and len(ret[2]) == 1:
+            pa = single_atom(ret[2][0]) if isinstance(ret[2][0], Poly) else None
+            if pa is not None and atom_fn(pa) == UNWRAP and len(tr_) == 1 and len(pp) == 1 and tr_[0]["vals"] == [var("self"), IDX + num(1)] \
+                    and pp[0]["vals"] == [var("self")] and atom_args(pa)[0] == app(pp[0]["detail"], var("self")) and pp[0]["seq"] > tr_[0]["seq"] \
+                    and not tr_[0]["guards"] and not pp[0]["guards"] and not tr_[0]["loops"] and not pp[0]["loops"]:
+                at_idx = True
+            if pa is not None and atom_fn(pa).startswith("std::vec::Vec::<T, A>::") and atom_fn(pa).rsplit("::", 1)[-1] in ("remove", "swap_remove") \
+                    and list(atom_args(pa)) == [var("self"), IDX] and not tr_:
+                at_idx = True
+        elif ra is not None and atom_fn(ra) == "std::iter::Iterator::nth" and unkey(ra[2]) in (("iterdesc", ("elems", var("self"))), ("iterdesc", ("elems", ("P", var("self"))))) \
+                and atom_args(ra)[1] == IDX and not tr_ and not pp:
+            at_idx = True
+    ok = len(ch) == 1 and ch[0]["vals"][1] == var("rng") and at_idx
+    # the population handed to choose(): the indices j with compare(x_j, min) == Equal, read by evaluating the selection stage for the
+    # three possible comparison results
     eqsel = False
     if len(ch) == 1 and isinstance(ch[0]["vals"][0], tuple) and ch[0]["vals"][0][0] == "iterdesc":
         d = ch[0]["vals"][0][1]
         tq = Tracer(F, "NONE")
         J, X = var("j"), var("x")
-        EQ = ("variant", "Equal")
+        from ..symx import NotEvaluable
 
-        def cmp_is_equal(v):
-            """v reads `compare(x, min) is Equal` -> polarity, else None"""
-            from ..symx import canon_cond
-            if not isinstance(v, Poly):
-                return None
-            c, pol = canon_cond(v, True)
-            a_ = single_atom(c)
-            if a_ and atom_fn(a_) in ("op_eq", "eq"):
-                s1, s2 = atom_args(a_)
-                for p_, q_ in ((s1, s2), (s2, s1)):
-                    if q_ == EQ and "apply(compare, x" in repr(p_):
-                        return pol
-            return None
+        def sel_at(v, outcome, seen):
+            return Grid({"j": 7}, {"apply": lambda f_, a_, b_, outcome=outcome: (seen.append((f_, a_, b_)), outcome)[1]}).value(v)
         try:
+            stage = None
             if d[0] == "filter_map" and d[1][0] == "enumerate" and d[1][1] == ("elems", var("self")):
-                r = tq.apply(d[2], [("tuple", [J, X])])
-                ra = single_atom(r) if isinstance(r, Poly) else None
-                if ra and atom_fn(ra) == "match":
-                    arms = dict(ra[3])
-                    eqsel = arms.get("'Equal'") == ("ctor", "Some", (("P", J),)) and "apply(compare, x" in repr(atom_args(ra)[0]) and \
-                        all(v2 == ("variant", "None") for k2, v2 in arms.items() if k2 != "'Equal'")
+                stage = ("filter_map", tq.apply(d[2], [("tuple", [J, X])]), None)
             elif d[0] == "map" and d[1][0] == "filter" and d[1][1][0] == "enumerate" and d[1][1][1] == ("elems", var("self")):
-                pv = tq.apply(d[1][2], [("tuple", [J, X])])
-                mv = tq.apply(d[2], [("tuple", [J, X])])
-                eqsel = cmp_is_equal(pv) is True and mv == J
-        except Unsupported:
+                stage = ("filter", tq.apply(d[1][2], [("tuple", [J, X])]), tq.apply(d[2], [("tuple", [J, X])]))
+            if stage is not None:
+                eqsel = True
+                for outcome in ("Less", "Equal", "Greater"):
+                    seen = []
+                    r = sel_at(stage[1], outcome, seen)
+                    kept = (r == ("Some", 7)) if stage[0] == "filter_map" else bool(r)
+                    none = (r == "None") if stage[0] == "filter_map" else not bool(r)
+                    # compared: the element against the minimum found before (min_by over the same list with the same comparator)
+                    cmp_ok = len(seen) == 1 and seen[0][0] == "<compare>" and seen[0][1] == "<x>" and "min_by" in str(seen[0][2]) and "elems" in str(seen[0][2])
+                    eqsel = eqsel and cmp_ok and (kept if outcome == "Equal" else none)
+                if stage[0] == "filter":
+                    eqsel = eqsel and stage[2] == J
+        except (Unsupported, NotEvaluable, TypeError):
             eqsel = False
     ck.inst("Q4", "sort_by_random_min", ok and eqsel, b.span,
-            "returns an element comparing Equal to the minimum: index chosen with the caller's rng among {j : compare(x_j, min) == Equal}, then truncate(idx+1) and pop [%s %s]" % (ok, eqsel))
+            "returns an element comparing Equal to the minimum: index chosen with the caller's rng among {j : compare(x_j, min) == Equal}; the element at that index is returned [%s %s]" % (ok, eqsel))
     b, t, ret, calls = trace(F, "peg::Peg::run", ["self"])
     ie = by_name(calls, "insert_edge")
     ok = len(ie) == 1 and len(ie[0]["loops"]) == 2 and ie[0]["loops"][0][0] == "range" and ie[0]["loops"][0][2] == num(0) and ie[0]["loops"][0][3] == app(SM + "num_cols", var("self.h")) \
